@@ -192,7 +192,7 @@ func TestC04(t *testing.T) {
 	evid.Main(t, "C04", func(rec *evid.Rec) {
 		rec.Rule("rapid histories (<=60 steps: legal moves and null moves when not in check) from suite/bench/synthetic/motif roots loaded with engine-normalised en-passant field; after EVERY step incremental hash == from-scratch hash (hook) and == hash of the re-parsed FEN (every 4th step), the three placement encodings agree, and any recurrence of a position (reference identity: placement, side, rights, en-passant capturability) carries the same hash. Transposition pairs: 4-ply sequences m1 m2 m3 m4 re-ordered as m3 m2 m1 m4 / m1 m4 m3 m2 / m3 m4 m1 m2, kept when the reference says both orders are legal and reach the same position. Non-trivial = step touching capture/castle/promotion/en-passant/rights/null move, a recurrence, or a transposition pair")
 		rec.Assume("from-scratch hash hook board.VerifCalcHash (build tag verif); reference identity of positions from verif/refchess")
-		rec.Rapid(t, "history", evid.Pick(40000, 500000), func(t *rapid.T) {
+		rec.Rapid(t, "history", evid.Pick(40000, 3000000), func(t *rapid.T) {
 			root, label := gen.Root(t)
 			root = root.NormEP()
 			rec.Class("root_" + label)
@@ -224,7 +224,7 @@ func TestC04(t *testing.T) {
 				t.Fatalf("%v", err)
 			}
 		})
-		rec.Rapid(t, "transposition", evid.Pick(60000, 800000), func(t *rapid.T) {
+		rec.Rapid(t, "transposition", evid.Pick(60000, 5000000), func(t *rapid.T) {
 			root, _ := gen.Root(t)
 			root = gen.Playout(t, root, 10, nil).NormEP()
 			if root.Half > 90 {
